@@ -87,13 +87,12 @@ Qed.
 
 Lemma set_rel c b (s : StA) c' b' (s' : StA) :
   shape (s c) -> shape (s' c') -> rk (s c) = rk (s' c') -> jet_eq F (rd s b) (rd s' b') ->
-  set_ok c b s = true -> set_ok c' b' s' = true ->
   stepres c c' s s' (set_reg F r32 c b s) (set_reg F r32 c' b' s') /\
   (forall t, set_reg F r32 c b s = Ok t -> rn (t c) = rn (rd s b) /\ rorder (t c) = rorder (rd s b)).
 Proof.
-  intros Hc Hc' Hk (Jv & Jn & Jo & Jg & Jh) K K'.
-  destruct (set_closed F r32 c b s Hc K) as [t [E [Fr [Sh N]]]].
-  destruct (set_closed F r32 c' b' s' Hc' K') as [t' [E' [Fr' [Sh' N']]]].
+  intros Hc Hc' Hk (Jv & Jn & Jo & Jg & Jh).
+  destruct (set_closed F r32 c b s Hc) as [t [E [Fr [Sh N]]]].
+  destruct (set_closed F r32 c' b' s' Hc' ) as [t' [E' [Fr' [Sh' N']]]].
   rewrite E, E'. split.
   - unfold stepres. do 4 (split; [assumption|]). rewrite N, N', Hk. unfold set_canon. rewrite <- Jv, <- Jn, <- Jo. f_equal.
     + destruct (1 <=? rorder (rd s b)); [|reflexivity]. apply map_ext. intro i. rewrite Jg. reflexivity.
@@ -173,15 +172,21 @@ Proof.
 Qed.
 
 (* ---------------------------------------------------------------- Log1pExp *)
-(* the three alias-safe branches: v <= 18 or v > 33.3 (branch 18 < v <= 33.3 with c = a: refuted) *)
+(* all four branches.  Branch 18 < v <= 33.3 (HEAD 7035970): t := fresh 0; t.Neg(a); t.Exp(t); c.Add(a, t) —
+   the two runs use two DIFFERENT temporaries (the model picks a register above the receiver and the
+   argument), related step by step; the final Add needs no side condition: t has exactly the N and Order of
+   a, so when c = a AllocForTwo reallocates nothing. *)
+Definition opd_ix (a : opd A) : nat := match a with Rg i => i | Im _ => 0 end.
+Lemma rd_upd_above (s : StA) (a : opd A) t r : (opd_ix a < t)%nat -> rd (upd s t r) a = rd s a.
+Proof. destruct a as [i|v]; cbn [opd_ix rd]; intro H; [apply upd_other; lia|reflexivity]. Qed.
+Lemma rd_frame (s s1 : StA) (a : opd A) t : (forall q, q <> t -> s1 q = s q) -> (opd_ix a < t)%nat -> rd s1 a = rd s a.
+Proof. destruct a as [i|v]; cbn [opd_ix rd]; intros Fr H; [apply Fr; lia|reflexivity]. Qed.
+
 Theorem log1pexp_indep c c' a (s : StA) :
   shape (s c) -> shape (s c') -> rk (s c) = rk (s c') ->
-  set_ok c a s = true -> set_ok c' a s = true ->
-  let v := rval (rd s a) in
-  (fleb F v (lit F 18) = true \/ fleb F v (fofQ F (333 # 10)%Q) = false) ->
   agree c c' (do_log1pexp F r32 c a s) (do_log1pexp F r32 c' a s).
 Proof.
-  intros Hc Hc' Hk K K' v Hv. unfold do_log1pexp. fold v.
+  intros Hc Hc' Hk. unfold do_log1pexp. set (v := rval (rd s a)).
   destruct (fleb F v (lit F (-37))).
   - apply stepres_agree with (s := s) (s' := s). apply first_mon; auto.
   - destruct (fleb F v (lit F 18)) eqn:E18.
@@ -189,18 +194,57 @@ Proof.
       assert (R1 := first_mon OExp c c' a s Hc Hc' Hk). use_step R1 t1 t1'. cbn [bind].
       assert (R2 := self_mon OLog1p c c' t1 t1' (stepres_I1 _ _ _ _ _ _ R1)).
       apply (stepres_agree _ _ _ _ _ _ R2).
-    + destruct Hv as [Hv|Hv]; [discriminate|]. rewrite Hv. apply set_indep; auto.
+    + destruct (fleb F v (fofQ F (333 # 10)%Q)); [|apply set_indep; auto].
+      fold (opd_ix a).
+      set (t := S (Nat.max c (opd_ix a))). set (t' := S (Nat.max c' (opd_ix a))).
+      assert (Htc : t <> c) by (unfold t; lia). assert (Hta : (opd_ix a < t)%nat) by (unfold t; lia).
+      assert (Htc' : t' <> c') by (unfold t'; lia). assert (Hta' : (opd_ix a < t')%nat) by (unfold t'; lia).
+      set (s0 := upd s t (null_reg F (rk (s c)))). set (s0' := upd s t' (null_reg F (rk (s c')))).
+      unfold seqm. cbn [fold_left bind].
+      (* t.Neg(a) *)
+      destruct (mon_rel ONeg t a s0 t' a s0') as [R1 Sz1].
+      { unfold s0. rewrite upd_same. apply shape_null. } { unfold s0'. rewrite upd_same. apply shape_null. }
+      { unfold s0, s0'. rewrite !upd_same. cbn [null_reg rk]. exact Hk. }
+      { unfold s0, s0'. rewrite !rd_upd_above by assumption. apply jet_refl. }
+      use_step R1 s1 s1'. cbn [bind]. destruct (Sz1 s1 eq_refl) as [Zn Zo].
+      unfold s0 in Zn, Zo. rewrite rd_upd_above in Zn, Zo by assumption.
+      (* t.Exp(t) *)
+      destruct (mon_rel OExp t (Rg t) s1 t' (Rg t') s1') as [R2 Sz2].
+      { apply R1. } { apply R1. } { destruct R1 as (_ & _ & _ & _ & N). apply norm_fields in N. tauto. }
+      { cbn [rd]. apply norm_jet. apply R1. }
+      use_step R2 s2 s2'. cbn [bind]. destruct (Sz2 s2 eq_refl) as [Yn Yo]. cbn [rd] in Yn, Yo.
+      destruct R1 as (Fr1 & Fr1' & _ & _ & _). destruct R2 as (Fr2 & Fr2' & Sh2 & Sh2' & N2).
+      assert (Fr : forall q, q <> t -> s2 q = s q).
+      { intros q Hq. rewrite Fr2, Fr1 by exact Hq. unfold s0. apply upd_other. exact Hq. }
+      assert (Fr' : forall q, q <> t' -> s2' q = s q).
+      { intros q Hq. rewrite Fr2', Fr1' by exact Hq. unfold s0'. apply upd_other. exact Hq. }
+      assert (Ea : rd s2 a = rd s a) by (apply (rd_frame s s2 a t); assumption).
+      assert (Ea' : rd s2' a = rd s a) by (apply (rd_frame s s2' a t'); assumption).
+      assert (Ec : s2 c = s c) by (apply Fr; congruence). assert (Ec' : s2' c' = s c') by (apply Fr'; congruence).
+      (* [keeps] for the final Add holds by itself: the temporary has the N and Order of the argument *)
+      assert (KK : forall (d u : nat) (w : StA), u <> d -> rd w a = rd s a -> w d = s d ->
+                   rn (w u) = rn (rd s a) -> rorder (w u) = rorder (rd s a) -> keeps d a (Rg u) w = true).
+      { intros d u w Hud Ha Hd Hn Ho. unfold keeps. cbn [hits rd].
+        destruct (Nat.eqb_spec u d) as [E|_]; [contradiction|]. rewrite orb_false_r.
+        destruct (hits d a) eqn:Hh; cbn [negb orb]; [|reflexivity].
+        apply hits_spec in Hh. subst a. cbn [rd] in *. rewrite Ha, Hn, Ho, !Nat.max_id, !Nat.eqb_refl. reflexivity. }
+      (* c.Add(a, t) *)
+      destruct (dy_rel OAdd c a (Rg t) s2 c' a (Rg t') s2') as [R3 _].
+      { rewrite Ec; exact Hc. } { rewrite Ec'; exact Hc'. } { rewrite Ec, Ec'; exact Hk. }
+      { rewrite Ea, Ea'. apply jet_refl. } { cbn [rd]. apply norm_jet. exact N2. }
+      { apply KK; auto; congruence. }
+      { destruct (norm_fields _ _ N2) as [_ [En Eo]]. apply KK; auto; congruence. }
+      use_step R3 s3 s3'. unfold agree.
+      rewrite !upd_other by congruence. apply R3.
 Qed.
 
 (* ---------------------------------------------------------------- Sigmoid *)
 Theorem sigmoid_indep c c' a t (s : StA) :
   shape (s c) -> shape (s c') -> shape (s t) -> rk (s c) = rk (s c') ->
   t <> c -> t <> c' -> hits t a = false ->
-  (* the fresh receiver must not fall into F-SETORD: N = 0 only at Order 0 *)
-  set_ok c' a s = true -> set_ok c a s = true ->
   agree c c' (do_sigmoid F r32 c a t s) (do_sigmoid F r32 c' a t s).
 Proof.
-  intros Hc Hc' Ht Hk Htc Htc' Hta K' K. unfold do_sigmoid.
+  intros Hc Hc' Ht Hk Htc Htc' Hta. unfold do_sigmoid.
   destruct (fleb F (zero F) (rval (rd s a))).
   - unfold seqm. cbn [fold_left bind].
     assert (R1 := first_mon ONeg c c' a s Hc Hc' Hk). use_step R1 t1 t1'. cbn [bind].
@@ -215,9 +259,6 @@ Proof.
     destruct R1 as (Fr1 & _ & Sh1 & _ & _). destruct (Sz s1 eq_refl) as [Zn Zo].
     assert (C1 : s1 c = s c) by (apply Fr1; congruence).
     assert (C1' : s1 c' = s c') by (apply Fr1; congruence).
-    (* set_ok is about N and Order only, and t got those of a *)
-    assert (K1 : set_ok c (Rg t) s1 = true) by (unfold set_ok in *; cbn [rd]; rewrite C1, Zn, Zo; exact K).
-    assert (K1' : set_ok c' (Rg t) s1 = true) by (unfold set_ok in *; cbn [rd]; rewrite C1', Zn, Zo; exact K').
     destruct (set_rel c (Rg t) s1 c' (Rg t) s1) as [R2 Sz2]; auto using jet_refl; try (rewrite ?C1, ?C1'; auto).
     use_step R2 u u'. cbn [bind].
     destruct R2 as (Fu & Fu' & Su & Su' & Nu).
@@ -332,12 +373,11 @@ Qed.
 
 Theorem logadd_indep c c' a b t (s : StA) :
   shape (s c) -> shape (s c') -> rk (s c) = rk (s c') -> t <> c -> t <> c' ->
-  set_ok c a s = true -> set_ok c b s = true -> set_ok c' a s = true -> set_ok c' b s = true ->
   last_side c (la_prefix t a b) t b s = true -> last_side c' (la_prefix t a b) t b s = true ->
   last_side c (la_prefix t b a) t a s = true -> last_side c' (la_prefix t b a) t a s = true ->
   agree c c' (do_logadd F r32 c a b t s) (do_logadd F r32 c' a b t s).
 Proof.
-  intros Hc Hc' Hk Htc Htc' K1 K2 K3 K4 L1 L2 L3 L4. unfold do_logadd.
+  intros Hc Hc' Hk Htc Htc' L1 L2 L3 L4. unfold do_logadd.
   destruct (fltb F _ _).
   - destruct (is_inf F (rval (rd s b))); [apply set_indep; auto|].
     apply (last_step_indep c c' t a (la_prefix t b a) s); auto. intros s3 q. apply la_prefix_frame.
@@ -347,11 +387,10 @@ Qed.
 
 Theorem logsub_indep c c' a b t (s : StA) :
   shape (s c) -> shape (s c') -> rk (s c) = rk (s c') -> t <> c -> t <> c' ->
-  set_ok c a s = true -> set_ok c' a s = true ->
   last_side c (ls_prefix t a b) t a s = true -> last_side c' (ls_prefix t a b) t a s = true ->
   agree c c' (do_logsub F r32 c a b t s) (do_logsub F r32 c' a b t s).
 Proof.
-  intros Hc Hc' Hk Htc Htc' K1 K3 L1 L2. unfold do_logsub.
+  intros Hc Hc' Hk Htc Htc' L1 L2. unfold do_logsub.
   destruct (fisinf F (rval (rd s b)) (-1)); [apply set_indep; auto|].
   apply (last_step_indep c c' t a (ls_prefix t a b) s); auto. intros s3 q. apply ls_prefix_frame.
 Qed.
